@@ -453,6 +453,18 @@ func (s *Symx) load(u *ssa.UnOp, visiting map[ssa.Value]bool, depth int) *Term {
 	switch a := u.X.(type) {
 	case *ssa.Alloc:
 		vals, entry := ReachingStores(u, a)
+		// `x := T{}` followed by element-wise writes: the zero initialisation is not the content
+		if len(vals) > 0 && hasElementStores(a) {
+			allZero := true
+			for _, v := range vals {
+				if c, ok := v.(*ssa.Const); !ok || c.Value != nil {
+					allZero = false
+				}
+			}
+			if allZero {
+				return rec(a)
+			}
+		}
 		if len(vals) > 0 {
 			var alts []*Term
 			for _, v := range vals {
@@ -672,4 +684,20 @@ func (t *Term) Brief() string {
 		return "loopvar"
 	}
 	return strings.ReplaceAll(t.String(), " ", "")
+}
+
+func hasElementStores(a *ssa.Alloc) bool {
+	for _, ref := range *a.Referrers() {
+		switch r := ref.(type) {
+		case *ssa.IndexAddr:
+			if len(storesTo(r)) > 0 {
+				return true
+			}
+		case *ssa.FieldAddr:
+			if len(storesTo(r)) > 0 {
+				return true
+			}
+		}
+	}
+	return false
 }
